@@ -27,7 +27,7 @@ structure Laws (ops : Ops V) (wire : V → Option V) (init : V) (S : Semi C) (co
     ∃ d', wire d = some d' ∧ Ok d' ∧ Ok (ops.reset (f s)) ∧ core (ops.reset (f s)) = S.join (core s) (core d')
   upd_none : ∀ f s, Mut f s → Ok s → ops.delta (f s) = none → Ok (ops.reset (f s)) ∧ core (ops.reset (f s)) = core s
   /-- a stored value survives the codec with its core (anti-entropy full states) -/
-  wire_ok : ∀ v, Ok v → ∃ v', wire v = some v' ∧ Ok v' ∧ core v' = core v
+  wire_ok : ∀ v v', Ok v → wire v = some v' → Ok v' ∧ core v' = core v
 
 section
 variable (ops : Ops V) (wire : V → Option V) (init : V) (S : Semi C) (core : V → C)
@@ -48,9 +48,9 @@ def arrDlv (w : FNet V) (arr : Nat → List Nat) (i j : Nat) : Nat → List Nat 
     | some d => if x = i ∧ d.origin ≠ i then arr x ++ [j] else arr x
     | none => arr x
 
-/-- ghost: a full state carries everything its sender has seen -/
+/-- ghost: a full state (one that exists and encodes) carries everything its sender has seen -/
 def arrSync (w : FNet V) (arr : Nat → List Nat) (i i' : Nat) : Nat → List Nat :=
-  fun x => if x = i ∧ (aget (w.reps i').store k).isSome then arr x ++ arr i' else arr x
+  fun x => if x = i ∧ ((aget (w.reps i').store k).bind wire).isSome then arr x ++ arr i' else arr x
 
 /-- reachable (network, seen-lists): updates of key `k` by allowed mutators, deliveries of any
     logged delta to any replica in any order, any number of times, full-state merges between any
@@ -60,7 +60,7 @@ inductive Reach : FNet V → (Nat → List Nat) → Prop where
   | upd (w arr) (i : Nat) (f : V → V) : Reach w arr → Mut f ((aget (w.reps i).store k).getD init) →
       Reach (w.step ops wire (.upd i k dt init f)) (arrUpd w arr i (w.step ops wire (.upd i k dt init f)))
   | dlv (w arr) (i j : Nat) : Reach w arr → Reach (w.step ops wire (.dlv i j)) (arrDlv w arr i j)
-  | sync (w arr) (i i' : Nat) : Reach w arr → Reach (w.step ops wire (.sync i i' k dt)) (arrSync k w arr i i')
+  | sync (w arr) (i i' : Nat) : Reach w arr → Reach (w.step ops wire (.sync i i' k dt)) (arrSync wire k w arr i i')
 
 structure Inv (w : FNet V) (arr : Nat → List Nat) : Prop where
   ids : ∀ i, (w.reps i).nodeID = i ∧ (w.reps i).tombs = []
@@ -334,17 +334,23 @@ theorem full_store (r : Rep V) (v : V) (h : r.tombs = []) :
 
 theorem inv_sync (L : Laws ops wire init S core Ok Mut) (w : FNet V) (arr : Nat → List Nat)
     (h : Inv S core Ok k w arr) (i i' : Nat) :
-    Inv S core Ok k (w.step ops wire (.sync i i' k dt)) (arrSync k w arr i i') := by
+    Inv S core Ok k (w.step ops wire (.sync i i' k dt)) (arrSync wire k w arr i i') := by
   cases hs' : aget (w.reps i').store k with
   | none =>
     have h1 : w.step ops wire (.sync i i' k dt) = w := by simp [FNet.step, hs']
-    have h2 : arrSync k w arr i i' = arr := by funext x; simp [arrSync, hs']
+    have h2 : arrSync wire k w arr i i' = arr := by funext x; simp [arrSync, hs']
     rw [h1, h2]; exact h
   | some v =>
     have hvi := h.val i'
     rw [hs'] at hvi
     simp only at hvi
-    obtain ⟨v', hw, hokv', hcv'⟩ := L.wire_ok v hvi.1
+    cases hw : wire v with
+    | none =>
+      have h1 : w.step ops wire (.sync i i' k dt) = w := by simp [FNet.step, hs', hw]
+      have h2 : arrSync wire k w arr i i' = arr := by funext x; simp [arrSync, hs', hw]
+      rw [h1, h2]; exact h
+    | some v' =>
+    obtain ⟨hokv', hcv'⟩ := L.wire_ok v v' hvi.1 hw
     have hfs := full_store (ops := ops) (k := k) (dt := dt) (w.reps i) v' (h.ids i).2
     simp only at hfs
     obtain ⟨hid, htomb, hstore⟩ := hfs
@@ -352,8 +358,8 @@ theorem inv_sync (L : Laws ops wire init S core Ok Mut) (w : FNet V) (arr : Nat 
     have hreps : ∀ x, (w.step ops wire (.sync i i' k dt)).reps x
         = if x = i then (Model.C41.step ops (w.reps i) (.fullState [(k, dt, v')])).1 else w.reps x := by
       intro x; simp [FNet.step, hs', hw, setRep]
-    have harr : ∀ x, arrSync k w arr i i' x = if x = i then arr x ++ arr i' else arr x := by
-      intro x; simp [arrSync, hs']
+    have harr : ∀ x, arrSync wire k w arr i i' x = if x = i then arr x ++ arr i' else arr x := by
+      intro x; simp [arrSync, hs', hw]
     refine ⟨?_, ?_, ?_, ?_⟩
     · intro x
       rw [hreps]
